@@ -713,6 +713,62 @@ def _bool_alternatives(body, slicer, l, blk, idx, depth=0):
     return out
 
 
+def switched_bool_local(body, slicer, p):
+    """the boolean local a `switch` block p really tests, behind the `_t = Not(_x)` / copy temporaries created for the branch"""
+    t = body.blocks[p]["t"]
+    if t["k"] != "switch" or t.get("ty") != "bool":
+        return None
+    d = t["discr"].get("m") or t["discr"].get("c")
+    if d is None or d["pr"]:
+        return None
+    l = d["l"]
+    guard = 0
+    while guard < 6:
+        guard += 1
+        ds = slicer.defs().get(l, [])
+        if len(ds) == 1 and ds[0][1] >= 0:
+            st = body.blocks[ds[0][0]]["s"][ds[0][1]]
+            r = st.get("r") or {}
+            if st["k"] == "assign" and not st["p"]["pr"] and r.get("k") == "unop" and r.get("op") == "Not":
+                q = r["o"].get("m") or r["o"].get("c")
+                if q is not None and not q["pr"]:
+                    l = q["l"]
+                    continue
+            if st["k"] == "assign" and not st["p"]["pr"] and r.get("k") == "use":
+                q = r["o"].get("m") or r["o"].get("c")
+                if q is not None and not q["pr"]:
+                    l = q["l"]
+                    continue
+        break
+    return l
+
+
+def decision_inputs(body, slicer, p, depth=0):
+    """For a branch on a boolean local that is assigned constants on several paths (`matches!(..)`, a flag set in match arms): the
+    conditions that decide which constant it holds = the branch conditions every definition of that local is control dependent on.
+    Returns raw (atom, label, block) triples; [] when the switch does not test such a local."""
+    l = switched_bool_local(body, slicer, p)
+    if l is None or depth > 3:
+        return []
+    out = []
+    for (db, dj, full) in slicer.defs().get(l, []):
+        for (a, s) in sorted(C.transitive_controls(body, db)):
+            if a == p:
+                continue
+            be = branch_edges(body, slicer, a)
+            if be is None:
+                continue
+            atom, labels = be
+            if s in labels:
+                trip = (atom, labels[s], a)
+                if trip not in out:
+                    out.append(trip)
+                    for more in decision_inputs(body, slicer, a, depth + 1):
+                        if more not in out:
+                            out.append(more)
+    return out
+
+
 def dom_conds(body, slicer, b):
     """Conditions that hold on *every* path reaching block b (see _dom_conds_raw), with one refinement: when a branch tests a boolean
     local that was assigned on several paths (`let ok = a && b; if ok`, `let hit = x || y; if !hit`) and exactly one of its
